@@ -146,10 +146,10 @@ type Sched struct {
 	LockBlocks int    // failed TryLock parks
 	Deadlock   bool
 	Overrun    bool
-	Blocks     int      // times a task was found blocked in an unannounced synchronisation primitive
-	leaked     bool     // tasks blocked for good could not be joined
+	Blocks     int           // times a task was found blocked in an unannounced synchronisation primitive
+	leaked     bool          // tasks blocked for good could not be joined
 	began      time.Duration // processor time of the process when the phase began
-	Log        []string // optional full event log
+	Log        []string      // optional full event log
 	KeepLog    bool
 }
 
